@@ -11,6 +11,7 @@ import time
 
 # property -> (harness modules, harness names)
 PROPS: dict[str, dict] = {
+    "C11": {"modules": ["vf.h_xform"], "harnesses": ["xform-copy-rename", "xform-dedup-fuse", "xform-split-expand"]},
     "C14": {"modules": ["vf.h_names"], "harnesses": ["fluent-names", "fluent-operands"]},
     "C13": {"modules": ["vf.h_fluent"], "harnesses": ["fluent-symreal"]},
     "C15": {"modules": ["vf.h_backends"], "harnesses": ["backends-symreal"]},
